@@ -25,7 +25,7 @@ var c11Symbols = []string{"a", "\n", "\r"}
 
 // c11Wide adds a two-byte and a three-byte character: columns are BYTE columns (offset - line start + 1), so an
 // offset inside or after a multi-byte character must not be counted in characters
-var c11Wide = []string{"a", "\n", "\r", "é", "€"}
+var c11Wide = []string{"a", "\n", "\r", "é", "€", "\f", "\t"}
 
 type c11Case struct {
 	Files   []string `json:"files"` // Go-quoted contents
@@ -170,6 +170,17 @@ func c11Set(res *explore.Result, contents []string, verbose bool) {
 			return fs, fl
 		}, "asc"})
 	}
+	variants = append(variants, variant{"every file first registered in ANOTHER set behind a 3-byte file, then NewFileSet(files...), ascending queries", func() (*parsley.FileSet, []*text.File) {
+		fl := mk()
+		pf := make([]parsley.File, len(fl))
+		for i, f := range fl {
+			// an earlier placement of the same file object (it got some other base offset there) must not stick
+			old := parsley.NewFileSet(text.NewFile("elsewhere", []byte("xyz")))
+			old.AddFile(f)
+			pf[i] = f
+		}
+		return parsley.NewFileSet(pf...), fl
+	}, "asc"})
 	if c11NameSet == 0 {
 		// the other documented way to obtain a file: the same bytes read from disk must give the same positions
 		variants = append(variants, variant{"files loaded with text.ReadFile, NewFileSet(files...), ascending queries", func() (*parsley.FileSet, []*text.File) {
